@@ -1,6 +1,6 @@
 (* C13 — property theorems only.  Each is closed by [exact] of a lemma; the
    driver pins the statements with [Check] and prints the assumptions. *)
-From Yv Require Import Common.Base C13.Model C13.Spec C13.Run C13.Proofs C13.ProofsRun C13.ProofsLedger.
+From Yv Require Import Common.Base C13.Model C13.Spec C13.Run C13.Proofs C13.ProofsRun C13.ProofsLedger C13.ProofsFds.
 
 (* the protocol invariant holds in every reachable state *)
 Theorem protocol_invariant :
@@ -94,6 +94,69 @@ Theorem kernel_refines_ledger :
   forall ops, kops_ok kern0 ops = true -> ledger_run ledger0 (model_khist kern0 ops) = None.
 Proof. exact kernel_refines_ledger_lemma. Qed.
 
+(* fork at any point of the parent's life: on every line of descent of a
+   process tree (any sequence of 'prepare to wait' and 'fork, follow the
+   child'), a process that prepares to wait and enters select is woken by the
+   SIGCHLD of its child: SIGCHLD is caught and is not in the mask given to
+   select (clone_for_fork copies select_mask) *)
+Theorem blocked_waiter_is_woken_after_any_forks :
+  forall es, sig_wakes (sig_ensure (sig_run cf_real es)) = true.
+Proof. exact wait_wakes_lemma. Qed.
+
+(* the statement depends on clone_for_fork: with a child state whose select
+   mask is reset, a subshell forked after an earlier wait is never woken ... *)
+Theorem select_mask_reset_refuted :
+  exists es, sig_wakes (sig_ensure (sig_run cf_reset es)) = false.
+Proof. exact reset_refuted_lemma. Qed.
+
+(* ... while subshells forked before the first wait are unaffected (why the
+   streams need 'an earlier child that was waited for' as a dimension) *)
+Theorem select_mask_reset_first_fork_unaffected :
+  forall n, sig_wakes (sig_ensure (sig_run cf_reset (repeat EFork n))) = true.
+Proof. exact reset_first_fork_lemma. Qed.
+
+(* PipeSet on an arbitrary initial table.  Full statement (NOT proved):
+     forall t0 k, 1 <= k -> wired_ok true t0 k = true
+   proved: for every table in which each of the descriptors 0..5 is open or
+   closed and nothing above is open, and 1..6 members (by evaluation). *)
+Theorem pipeline_wiring_partial :
+  forall l k, In l (layouts 6) -> In k (seq 1 6) -> wired_ok true (tbl_of l) k = true.
+Proof. exact wiring_lemma. Qed.
+
+Example pipeline_wiring_nonvacuous :
+  existsb (list_eqb Bool.eqb [true; false; true; true; false; true]) (layouts 6) = true /\
+  fst (pipeline_tables true (tbl_of [true; false; true]) 3) =
+    [Some [Some (Orig 0); Some (PW 0); Some (Orig 2); None];
+     Some [Some (PR 0); Some (PW 1); Some (Orig 2); None; None];
+     Some [Some (PR 1); None; Some (Orig 2); None; None]].
+Proof. vm_compute. split; reflexivity. Qed.
+
+(* without the step that moves the previous pipe's read end away from
+   descriptor 1, the middle member of `a | b | c` started with descriptor 1
+   closed is wired wrongly; two-member pipelines never show it *)
+Theorem pipeline_unfixed_refuted :
+  wired_ok false (tbl_of [true; false; true]) 3 = false.
+Proof. exact unfixed_refuted_lemma. Qed.
+
+Theorem pipeline_unfixed_two_members_unaffected :
+  forall l, In l (layouts 6) -> wired_ok false (tbl_of l) 2 = true.
+Proof. exact unfixed_two_lemma. Qed.
+
+(* whenever the implementation shows the expected status and data and the
+   members' open descriptors are those of the model, the stream-P check accepts *)
+Theorem pipefd_oracle_is_sound :
+  forall lay k st fds, In lay (layouts 6) -> In k (seq 2 5) -> length fds = k ->
+    fds_agree (fst (pipeline_tables true (tbl_of lay) k)) fds = true ->
+    run_pipefd lay k st [expected_data k] fds [Z.of_N st] false false 0 = 0%N.
+Proof. exact pipefd_oracle_sound. Qed.
+
+Print Assumptions pipefd_oracle_is_sound.
+Print Assumptions blocked_waiter_is_woken_after_any_forks.
+Print Assumptions select_mask_reset_refuted.
+Print Assumptions select_mask_reset_first_fork_unaffected.
+Print Assumptions pipeline_wiring_partial.
+Print Assumptions pipeline_unfixed_refuted.
+Print Assumptions pipeline_unfixed_two_members_unaffected.
 Print Assumptions protocol_invariant.
 Print Assumptions model_schedulers_give_reference.
 Print Assumptions model_schedulers_sound.
